@@ -59,6 +59,7 @@ static unsigned c08_byte(unsigned long long seed, unsigned long long k)
  * scale = scale_num/8.  Oracle: every delivered row equals the same row/columns of a full decode with
  * the same settings (first/last column exempt when smooth upsampling is active), skip returns
  * min(n, rows left), crop window as documented. */
+static int c08_smooth = 0, c08_cut = 1000;   /* smoothhist: block smoothing on, stream cut to c08_cut/1000 of its length */
 static int op_skiphist(toks_t *t)
 {
   int ss = (int)tl(t, 1), w = (int)tl(t, 2), h = (int)tl(t, 3), prog = (int)tl(t, 4), arith = (int)tl(t, 5);
@@ -94,17 +95,24 @@ static int op_skiphist(toks_t *t)
   tj3Set(hc, TJPARAM_SUBSAMP, ss); tj3Set(hc, TJPARAM_QUALITY, 85); tj3Set(hc, TJPARAM_PROGRESSIVE, prog); tj3Set(hc, TJPARAM_ARITHMETIC, arith);
   if (tj3Compress8(hc, rgb, w, 0, h, TJPF_RGB, &jb, &js) < 0) { printf("R skip compress\n"); goto done; }
   }
+  if (c08_smooth) {   /* keep the headers and the first scan header; cut inside the entropy-coded data that follows */
+    size_t sos = 0, q; for (q = 2; q + 1 < js; q++) if (jb[q] == 0xFF && jb[q + 1] == 0xDA) { sos = q; break; }
+    if (sos) { size_t base = sos + 2 + ((size_t)jb[sos + 2] << 8 | jb[sos + 3]) + 1, keep = base + (size_t)((unsigned long long)(js - base) * (unsigned)c08_cut / 1000ULL); if (keep < js) js = keep; }
+  }
   printf("R ok\n");
   for (pass = 0; pass < 2 && !bad; pass++) {      /* pass 0: full decode; pass 1: the history */
     struct jpeg_decompress_struct d; my_err_t e;
     d.err = my_err_init(&e);
     jpeg_create_decompress(&d);
-    if (setjmp(e.jb)) { bad = 1; snprintf(why, sizeof(why), "libjpeg error %d in %s", e.code, pass ? "history" : "full decode"); jpeg_destroy_decompress(&d); break; }
+    if (setjmp(e.jb)) {
+      if (c08_smooth && pass == 0) { jpeg_destroy_decompress(&d); break; }   /* the cut fell inside a table definition: nothing to compare */
+      bad = 1; snprintf(why, sizeof(why), "libjpeg error %d in %s", e.code, pass ? "history" : "full decode"); jpeg_destroy_decompress(&d); break;
+    }
     jpeg_mem_src(&d, jb, (unsigned long)js);
     jpeg_read_header(&d, TRUE);
     d.scale_num = snum; d.scale_denom = 8;
     d.do_fancy_upsampling = fancy; d.dct_method = dct ? JDCT_IFAST : JDCT_ISLOW;
-    d.do_block_smoothing = FALSE;
+    d.do_block_smoothing = c08_smooth ? TRUE : FALSE;
     d.out_color_space = JCS_RGB;
     jpeg_start_decompress(&d);
     if (pass == 0) {
@@ -197,5 +205,16 @@ static int dispatch_c08(toks_t *t)
   if (!strcmp(op, "outdim")) return op_outdim(t);
   if (!strcmp(op, "tjcrop")) return op_tjcrop(t);
   if (!strcmp(op, "skiphist")) return op_skiphist(t);
+  if (!strcmp(op, "smoothhist") && t->n >= 13) {
+    /* smoothhist <cut permille> <skiphist arguments> : a progressive stream cut short, so that block smoothing (jdcoefct.c
+       decompress_smooth_data) is what produces the pixels, then the same crop / read / skip history against the full decode */
+    toks_t u = *t; int i, r;
+    c08_cut = (int)tl(t, 1); c08_smooth = 1;
+    for (i = 1; i + 1 < t->n; i++) u.tok[i] = t->tok[i + 1];
+    u.n = t->n - 1;
+    r = op_skiphist(&u);
+    c08_smooth = 0; c08_cut = 1000;
+    return r;
+  }
   return 0;
 }
